@@ -4,7 +4,7 @@
    Encoding: a universe U = list of all nodes of a pset (index = node id); a tree literal is a
    list of (id, ephemeral value) pairs. *)
 From Coq Require Import List ZArith NArith Bool.
-From DV Require Export Base.Corr Model.C11_GPTree Model.C11_PSet.
+From DV Require Export Base.Corr Model.C11_GPTree Model.C11_PSet Model.C11_Spec.
 Import ListNotations.
 Local Open Scope Z_scope.
 
@@ -58,6 +58,7 @@ Inductive case :=
 | COp (U : list node) (ps : pset) (oc : opcall) (inputs : list lit) (ds : list draw) (obs : outcome (list lit))
 | CLim (U : list node) (ps : pset) (k : lkey) (maxv : Z) (oc : opcall) (inputs : list lit)
        (ds : list draw) (obs : outcome (list lit))
+| CWt (U : list node) (pairs : list (Z * Z)) (e : Z) (l : lit) (obs_complete obs_typed : bool)
 | CPset (U : list node) (pairs : list (Z * Z)) (ops : list (bool * Z))
         (oprims oterms : list (Z * list Z)) (tc pc : Z).
 
@@ -85,5 +86,9 @@ Definition check (c : case) : bool :=
   | CLim U ps k maxv oc inputs ds obs =>
       agree (fun a o => trees_eqb a (map (mk U) o))
             (static_limit k maxv (run_op ps oc) (map (mk U) inputs) ds) obs
+  (* the predicates of the theorems (complete / well typed at e), evaluated on a concrete list,
+     against the harness's independent checker *)
+  | CWt U pairs e l oc ot =>
+      Bool.eqb (complete (mk U l)) oc && Bool.eqb (wt_list (sub_of pairs) (Z.to_N e) (mk U l)) ot
   | CPset U pairs ops oprims oterms tc pc => pset_case U pairs ops oprims oterms tc pc
   end.
